@@ -9,11 +9,12 @@ from ..engine import is_sym, z_and, z_or, z_not, Inconclusive
 
 
 class Reject(Exception):
-    def __init__(self, what, pos, ctx=''):
+    def __init__(self, what, pos, ctx='', label=''):
         Exception.__init__(self, what)
         self.what = what
         self.pos = pos
         self.ctx = ctx
+        self.label = label      # syntactic role being read when the text was rejected (stable part of a key)
 
 
 RESERVED = {
@@ -138,9 +139,11 @@ class Lexer:
             k -= 1
         return ''.join(reversed(out))
 
-    def reject(self, what, pos=None):
+    labels = ('module',)
+
+    def reject(self, what, pos=None, label=None):
         pos = self.i if pos is None else pos
-        raise Reject(what, pos, self.context(pos))
+        raise Reject(what, pos, self.context(pos), label or self.labels[-1])
 
     def skip_ws(self):
         cs, n = self.cs, self.n
@@ -240,7 +243,7 @@ class Lexer:
         val = []
         while True:
             if j >= n:
-                self.reject('unterminated string literal', start)
+                self.reject('unterminated string literal', start, 'string-literal')
             c = cs[j]
             if isinstance(c, Opaque):
                 val.append(c)
@@ -250,10 +253,10 @@ class Lexer:
                 break
             if decide(V.char_eq(c, 92)):
                 if j + 1 >= n:
-                    self.reject('unterminated string literal', start)
+                    self.reject('unterminated string literal', start, 'string-literal')
                 e = cs[j + 1]
                 if isinstance(e, Opaque):
-                    self.reject('escape of opaque text', j)
+                    self.reject('escape of opaque text', j, 'string-literal')
                 simple = {110: 10, 114: 13, 116: 9, 98: 8, 102: 12, 118: 11, 48: 0}
                 done = False
                 for k, r in simple.items():
@@ -267,11 +270,11 @@ class Lexer:
                         need = 2 if decide(V.char_eq(e, ord('x'))) else 4
                         hexs = cs[j + 2:j + 2 + need]
                         if len(hexs) < need or not all(isinstance(h, int) and chr(h) in '0123456789abcdefABCDEF' for h in hexs):
-                            self.reject('malformed escape sequence', j)
+                            self.reject('malformed escape sequence', j, 'string-literal')
                         val.append(int(''.join(chr(h) for h in hexs), 16))
                         j += need
                     elif decide(_in(e, 49, 57)):
-                        self.reject('octal/decimal escape in strict mode', j)
+                        self.reject('octal/decimal escape in strict mode', j, 'string-literal')
                     elif q != 96 and decide(is_line_terminator(e)):
                         pass   # line continuation
                     else:
@@ -279,9 +282,9 @@ class Lexer:
                 j += 2
                 continue
             if q != 96 and decide(z_or(V.char_eq(c, 10), V.char_eq(c, 13))):
-                self.reject('line terminator in string literal', j)
+                self.reject('line terminator in string literal', j, 'string-literal')
             if q == 96 and decide(V.char_eq(c, 36)) and j + 1 < n and decide(V.char_eq(cs[j + 1], 123)):
-                self.reject('template substitution', j)
+                self.reject('template substitution', j, 'string-literal')
             val.append(c)
             j += 1
         self.i = j + 1
@@ -308,11 +311,19 @@ class Parser:
     def __init__(self, text, name=''):
         self.lx = Lexer(text, name)
         self.name = name
+        self.labels = ['module']
+        self.lx.labels = self.labels
+
+    def push(self, label):
+        self.labels.append(label)
+
+    def pop(self):
+        self.labels.pop()
 
     # -- helpers --
     def reject(self, what, tok=None):
         pos = tok.pos if tok is not None else self.lx.i
-        raise Reject(what, pos, self.lx.context(pos))
+        raise Reject(what, pos, self.lx.context(pos), self.labels[-1])
 
     def expect_p(self, p):
         t = self.lx.next()
@@ -418,8 +429,13 @@ class Parser:
             self.reject('expected declaration after export', t)
         if t.is_kw('interface'):
             self.lx.next()
+            self.push('decl-name')
             name = self.ident('interface name', TYPE_NAME_RESERVED)
             self.type_params()
+            nt = self.lx.peek()
+            if not (nt.is_p('{') or (nt.kind == 'ident' and nt.is_kw('extends'))):
+                self.reject("expected '{' after interface name", nt)
+            self.pop()
             ext = []
             if self.accept_kw('extends'):
                 ext.append(self.type_())
@@ -429,9 +445,11 @@ class Parser:
             return N('Interface', name=name, extends=ext, members=members, pos=t.pos)
         if t.is_kw('type'):
             self.lx.next()
+            self.push('decl-name')
             name = self.ident('type alias name', TYPE_NAME_RESERVED)
             self.type_params()
             self.expect_p('=')
+            self.pop()
             ty = self.type_()
             if not self.accept_p(';'):
                 nt = self.lx.peek()
@@ -440,7 +458,12 @@ class Parser:
             return N('TypeAlias', name=name, type=ty, pos=t.pos)
         if t.is_kw('const'):
             self.lx.next()
+            self.push('decl-name')
             name = self.ident('const name')
+            nt = self.lx.peek()
+            if not (nt.is_p(':') or nt.is_p('=')):
+                self.reject("expected '=' after const name", nt)
+            self.pop()
             ann = None
             if self.accept_p(':'):
                 ann = self.type_()
@@ -458,12 +481,22 @@ class Parser:
             t = self.lx.peek()
         if t.kind == 'ident' and t.is_kw('function'):
             self.lx.next()
+            self.push('decl-name')
             name = self.ident('function name')
             self.type_params()
+            nt = self.lx.peek()
+            if not nt.is_p('('):
+                self.reject("expected '(' after function name", nt)
+            self.pop()
             params = self.params()
             ret = None
             if self.accept_p(':'):
+                self.push('type')
                 ret = self.type_()
+                nt = self.lx.peek()
+                if not nt.is_p('{'):
+                    self.reject("expected '{' after return type", nt)
+                self.pop()
             body = self.block()
             return N('Function', name=name, params=params, ret=ret, body=body, is_async=is_async, pos=t.pos)
         self.reject('unsupported export declaration', t)
@@ -485,14 +518,18 @@ class Parser:
 
     # -- types --
     def type_(self):
-        self.accept_p('|')
-        first = self.type_intersection()
-        alts = [first]
-        while self.accept_p('|'):
-            alts.append(self.type_intersection())
-        if len(alts) == 1:
-            return first
-        return N('Union', alts=alts)
+        self.push('type')
+        try:
+            self.accept_p('|')
+            first = self.type_intersection()
+            alts = [first]
+            while self.accept_p('|'):
+                alts.append(self.type_intersection())
+            if len(alts) == 1:
+                return first
+            return N('Union', alts=alts)
+        finally:
+            self.pop()
 
     def type_intersection(self):
         first = self.type_postfix()
@@ -606,6 +643,7 @@ class Parser:
             if t.is_p('}'):
                 self.lx.next()
                 break
+            self.push('property-key')
             if t.is_p('['):
                 self.lx.next()
                 kname = self.ident('index signature parameter')
@@ -637,17 +675,28 @@ class Parser:
                     if not nt.is_p(':'):
                         self.reject("expected ':' after property name", nt)
                     self.lx.next()
+                    self.pop()
+                    self.push('type')
                     ty = self.type_()
                 members.append(N('Prop', key=key, optional=opt, type=ty))
             if self.accept_p(';') or self.accept_p(','):
+                self.pop()
                 continue
             nt = self.lx.peek()
             if nt.is_p('}'):
+                self.pop()
                 continue
             self.reject("expected ';' or '}' in object type", nt)
         return members
 
     def params(self):
+        self.push('params')
+        try:
+            return self._params()
+        finally:
+            self.pop()
+
+    def _params(self):
         self.expect_p('(')
         out = []
         if self.accept_p(')'):
@@ -682,6 +731,13 @@ class Parser:
         return stmts
 
     def stmt(self):
+        self.push('statement')
+        try:
+            return self._stmt()
+        finally:
+            self.pop()
+
+    def _stmt(self):
         t = self.lx.peek()
         if t.is_p('{'):
             return N('Block', body=self.block())
@@ -750,6 +806,13 @@ class Parser:
         return e
 
     def expr_noseq(self):
+        self.push('expr')
+        try:
+            return self._expr_noseq()
+        finally:
+            self.pop()
+
+    def _expr_noseq(self):
         # arrow functions
         t = self.lx.peek()
         if t.is_p('(') and self._looks_like_arrow():
@@ -968,6 +1031,7 @@ class Parser:
                     self.lx.next()
                     props.append(N('Spread', arg=self.expr_noseq()))
                 else:
+                    self.push('object-key')
                     kt = self.lx.next()
                     if kt.kind == 'ident':
                         key = N('Key', text=kt.val, quoted=False, pos=kt.pos)
@@ -978,8 +1042,10 @@ class Parser:
                     else:
                         self.reject('expected property name in object literal', kt)
                     if self.accept_p(':'):
+                        self.pop()
                         val = self.expr_noseq()
                         props.append(N('PropInit', key=key, value=val, shorthand=False))
+                        self.push('object-value')
                     else:
                         if kt.kind != 'ident':
                             self.reject("expected ':' after property name", self.lx.peek())
@@ -990,9 +1056,13 @@ class Parser:
                             self.reject("expected ':' , ',' or '}' after property name", sep)
                         props.append(N('PropInit', key=key, value=N('Id', name=kt.val, pos=kt.pos), shorthand=True))
                 if self.accept_p(','):
+                    if self.labels[-1] in ('object-key', 'object-value'):
+                        self.pop()
                     continue
                 nt = self.lx.peek()
                 if nt.is_p('}'):
+                    if self.labels[-1] in ('object-key', 'object-value'):
+                        self.pop()
                     continue
                 self.reject("expected ',' or '}' in object literal", nt)
             return N('ObjectLit', props=props)
